@@ -208,10 +208,31 @@ def describe(c, which, kind, exp, o):
         json.dumps(o["log"])[:300], json.dumps(o["outside"])[:200])
 
 
+def replay_one(cx, drv):
+    """bin/check C14 --replay replays/C14-*.json: one recorded case through the driver and ImportsCheck."""
+    c = dict(json.load(open(cx.replay))["case"]["case"])
+    c["id"] = 0
+    o = drive(cx, drv, [c], "replay", src=True)
+    if "local" not in o.get(0, {}):
+        raise vlib.Inconclusive("driver produced no observation: %s" % json.dumps(o.get(0))[:300])
+    row = dict(c)
+    row["obs"] = slim(o[0])
+    mism, tol, unknown = conform(cx, [row], "replay", nshards=1)
+    for i, which, kind, exp in mism[:1]:
+        cx.violation(describe(c, which, kind, exp, o[0][which]),
+                     {"case": c, "importer": which, "kind": kind, "expected": exp, "observed": o[0], "source": o[0].get("src")})
+    cx.log("replay: %s" % ("still disagrees with the specification" if mism else "conforms"))
+    cx.cover.update({"cases": 1, "evaluations": 3, "distinct_nontrivial": int(nontrivial(c)),
+                     "traces_validated_against_impl": 1, "exhaustive": False,
+                     "rule": "replay of one recorded case through harness/cmd/imports and specs/ImportsCheck.tla"})
+
+
 def run(cx):
     cx.level = "model_checking"
     drv = cx.go_build("imports")
     quick = cx.quick()
+    if cx.replay:
+        return replay_one(cx, drv)
     rng = random.Random(cx.seed * 7919 + 14)
     workers = min(vlib.NCPU, 12)
     if quick:
@@ -220,14 +241,15 @@ def run(cx):
         nsim, nrand = 150, 3000
         sim = (3, 2, 4, "full", True)
     else:
-        graph_cfgs = [("mainpairs", (2, 1, 1, "full", False)), ("deep", (1, 2, 3, "small", False)),
-                      ("four", (1, 1, 3, "small", True)), ("maintriples", (3, 1, 0, "small", False))]
-        maxseg, encs = 4, ["plain", "hexdots", "hexall", "unidots", "octall", "bigdots"]
-        nsim, nrand = 2500, 40000
+        graph_cfgs = [("mainpairs", (2, 1, 0, "full", False)), ("mainpairs_mod", (2, 1, 1, "small", False)),
+                      ("deep", (1, 2, 3, "small", False)), ("four", (1, 1, 2, "small", True)),
+                      ("maintriples", (3, 1, 0, "small", False))]
+        maxseg, encs = 4, ["plain", "hexdots", "unidots", "octall"]
+        nsim, nrand = 2500, 30000
         sim = (4, 3, 6, "full", True)
 
     st = {"next_id": 0, "cases": 0, "nontrivial": 0, "tolerated": [], "unknown": 0, "samples_g": [], "samples_p": [],
-          "texts": set(), "selftested": False, "unreproduced": 0, "overrejected": 0, "reported": {}}
+          "texts": set(), "selftested": False, "expected": {}, "unreproduced": 0, "overrejected": 0, "reported": {}}
 
     def process(cases, tag):
         """Evaluate one batch on the real pipeline, validate it with ImportsCheck, report disagreements."""
@@ -268,6 +290,9 @@ def run(cx):
             tag, len(rows), len(mism), len(tol), len(unknown)))
         by_id = {c["id"]: c for c in cases}
         st["cases"] += len(cases)
+        for c in cases:
+            if c["kind"] == "graph":
+                st["expected"][c.get("st", "?")] = st["expected"].get(c.get("st", "?"), 0) + 1
         st["nontrivial"] += sum(1 for c in cases if nontrivial(c))
         st["unknown"] += len(unknown)
         for i in sorted(set(i for i, _ in tol)):
@@ -293,7 +318,14 @@ def run(cx):
         confirmed = {}
         for i, which, kind, exp in mism2:
             confirmed.setdefault(i, (which, kind, exp))
-        st["unreproduced"] += len([c for c in sub if c["id"] not in confirmed])
+        for c in sub:
+            if c["id"] in confirmed:
+                continue
+            first = obs[c["id"]]
+            if all(first[k]["status"] in ("ok", "err") for k in ("local", "fs", "again")):
+                st["unreproduced"] += 1
+            else:
+                st["retried"] = st.get("retried", 0) + 1    # a timeout under load is not an observation
         for i, (which, kind, exp) in sorted(confirmed.items()):
             c, o = by_id[i], obs2[i][which]
             if kind == "diverge" and o["status"] == "err" and o.get("cls") == "parse" and not o["log"] and not o["outside"]:
@@ -308,7 +340,7 @@ def run(cx):
 
     pending = []
 
-    def batches(cases, tag, size=150000, flush=False):
+    def batches(cases, tag, size=100000, flush=False):
         """Collect cases and process them in batches (one batch in the quick tier: JVM starts dominate)."""
         pending.extend(cases)
         while len(pending) >= size or (flush and pending):
@@ -322,7 +354,7 @@ def run(cx):
     n_graph_exh = 0
     for name, consts in graph_cfgs:
         cases = []
-        r = cx.tlc("ImportsMC", cfg_text=mc_cfg(*consts), workers=workers, name="mc_" + name, timeout=1500, heap="6g")
+        r = cx.tlc("ImportsMC", cfg_text=mc_cfg(*consts), workers=workers, name="mc_" + name, timeout=1500, heap="4g")
         cx.tlc_must_pass(r, "ImportsMC " + name)
         n = harvest(r, cases)
         mc_stats[name] = {"bounds": dict(zip(("LM", "LB", "MB", "STYLE", "WITHC"), consts)), "states": r.distinct, "worlds": n}
@@ -331,7 +363,7 @@ def run(cx):
 
     # ---- legs M + G, path texts
     cases = []
-    r = cx.tlc("ImportsPaths", cfg_text=paths_cfg(maxseg, encs), workers=workers, name="paths", timeout=1500, heap="6g")
+    r = cx.tlc("ImportsPaths", cfg_text=paths_cfg(maxseg, encs), workers=workers, name="paths", timeout=1500, heap="4g")
     cx.tlc_must_pass(r, "ImportsPaths")
     n_path_exh = harvest(r, cases)
     texts = set((tuple(c["text"]), c["abs"]) for c in cases)
@@ -353,6 +385,8 @@ def run(cx):
         cx.notes.append("%d cases: an import the specification accepts was refused by the parser (tolerated)" % st["overrejected"])
         if st["overrejected"] * 2 > n_graph_exh:
             raise vlib.Inconclusive("the parser refuses most imports of the specification: the property cannot be exercised")
+    if st.get("retried"):
+        cx.notes.append("%d cases timed out in the first pass and conformed when re-executed" % st["retried"])
     if st["unreproduced"] and not cx.violations:
         raise vlib.Inconclusive("%d disagreements were not reproduced on re-execution" % st["unreproduced"])
 
@@ -388,6 +422,7 @@ def run(cx):
         "traces_validated_against_impl": st["cases"],
         "graph_worlds_exhaustive": n_graph_exh,
         "graph_bounds": mc_stats,
+        "graph_expected_outcomes": st["expected"],
         "path_texts": len(texts),
         "path_cases_exhaustive": n_path_exh,
         "path_bounds": {"max_segments": maxseg, "encodings": encs},
@@ -397,7 +432,7 @@ def run(cx):
         "unknown": st["unknown"],
         "exhaustive": True,
         "rule": "TLC enumerates (a) every world = main program of <= LM import statements (every spelling: identifier, quoted, "
-                "aliased, from-import dotted/quoted/grouped, several items, one name under two aliases) over module files "
+                "aliased, inside a function body, from-import dotted/quoted/grouped, several items, one name under two aliases) over module files "
                 "a, b, a/b (, c), a missing module zz and a file importing ../outside, each module body <= LB import statements "
                 "(<= MB in total), closed by mutations and observations through every imported name; (b) every path text of "
                 "<= max_segments segments over {'', '.', '..', a, b, '..a', 'a..'} x {relative, leading slash, absolute "
